@@ -127,6 +127,23 @@ impl<'a> Evaluator<'a> {
         }
     }
 
+    /// Evaluates the operand of `defined(..)`: the symbols it finds are usages like any other, the ones it does not
+    /// find are simply not defined (and not "unknown identifiers")
+    pub fn evaluate_defined_operand(
+        &self,
+        expr: &Located<Expression>,
+    ) -> EvaluationResult<Option<SymbolData>> {
+        let first_new_usage = self.usages.lock().unwrap().len();
+        let result = self.evaluate_expression(expr, true);
+        let mut usages = self.usages.lock().unwrap();
+        let mut idx = 0;
+        usages.retain(|usage| {
+            idx += 1;
+            idx <= first_new_usage || usage.symbol_index.is_some()
+        });
+        result
+    }
+
     pub fn usages(self) -> Vec<SymbolUsage> {
         let u = Arc::try_unwrap(self.usages).unwrap();
         Mutex::into_inner(u).unwrap()
